@@ -2,16 +2,21 @@
 TUS = ['src/base/QXmppSasl.cpp', 'src/base/QXmppUtils.cpp', 'src/base/QXmppStreamManagement.cpp', 'src/base/QXmppStanza.cpp', 'src/base/QXmppIq.cpp',
        'src/base/QXmppBindIq.cpp', 'src/base/QXmppNonza.cpp', 'src/base/Stream.cpp', 'src/server/QXmppPasswordChecker.cpp']
 MODELS = ['c16_pre.c', 'qt_core.c', 'qt_list.c', 'qt_dom.c', 'qt_object.c', 'c16_env.c']
-LB = {r'^_ZNSt6ranges14__copy_or_move': 70}
+LB = {r'^_ZNSt6ranges14__copy_or_move': 70, r'^_ZN13QConcatenableI10QByteArrayE8appendTo': 16}
 def I(name, entry, **kw):
     d = dict(name=name, entry='h_' + entry, unwind=8, timeout_s=300, mem_gb=6, object_bits=12, cdefs={'VP_ACTIVATE_HOOK': 'c16_on_signal'}, bound=''); d.update(kw); return d
+def C(name, entry, case, **kw): return I(name, entry, cdefs={'VP_ACTIVATE_HOOK': 'c16_on_signal', 'VP_CASE': case}, **kw)
 SPEC = dict(
     property='C16',
     groups=[
         dict(name='client', harness='h.cpp', tus=TUS, models=MODELS, ranges_shim=True, loop_bounds=LB,
              instances=[I('client_unauth', 'client_unauth'), I('client_auth_route', 'client_auth_route'), I('client_auth_bind', 'client_auth_bind'), I('client_auth_drop', 'client_auth_drop'),
                         I('other_ns', 'other_ns'), I('sasl_nochecker', 'sasl_nochecker')]
-                       + [I('%s_m%d' % (e, m), e, cdefs={'VP_ACTIVATE_HOOK': 'c16_on_signal', 'VP_CASE': m, 'LIST_CAP': 7}) for e in ('sasl_auth', 'sasl2_auth') for m in [0, 1, 2, 3, 4, 5, 16, 32, 48]]),
+                       + [I('%s_m%d' % (e, m), e, cdefs={'VP_ACTIVATE_HOOK': 'c16_on_signal', 'VP_CASE': m, 'LIST_CAP': 7}) for e in ('sasl_auth', 'sasl2_auth') for m in range(6)]
+                       + [C('password_reply_c%d' % c, 'password_reply', c) for c in (0, 1, 3, 7)]
+                       + [C('sasl_response_c%d' % c, 'sasl_response', c) for c in range(16)]
+                       + [C('digest_reply_c%d' % c, 'digest_reply', c) for c in (0, 1)]
+                       + [I('reply_foreign_sender', 'reply_foreign_sender'), I('sasl_misc', 'sasl_misc'), I('checker_default', 'checker_default')]),
     ],
     bounds=[], assumptions=[], outside=[],
 )
